@@ -173,6 +173,11 @@ def Skeleton.pinned : Skeleton where
   stateBroadcaster := ["map[string]channelWithContext[T]", "bool", "*sync.Mutex"]
   stateChannel := ["chan T", "context.Context", "func(cause error)"]
   stateWrappedChild := ["any", "*closureManager"]
+  stateGlobals := []
+  clNilErrorViaIsNil := true
+  msgCodecPlain := true
+  linkReturnsOnlyFatalSlot := true
+  ucNoWaiting := true
   accesses := [
     { var := "Broadcaster.channels", site := "Close", write := false, locks := ["b.lock"], order := "" },
     { var := "Broadcaster.channels", site := "Close", write := true, locks := ["b.lock"], order := "" },
